@@ -39,7 +39,8 @@ NodeVerdict ==
          \* (a bare blob is reported only when it passes the acceptance rule: length, distinct characters, not all hex digits, not all letters, few slashes)
          IF B64Text(inner) /\ inner # <<>> THEN <<"b64", val = B64Decode(inner) /\ (ty # "" \/ BareB64Accept(inner))>> ELSE <<"n/a", TRUE>>
     [] obf = "decoded.hexadecimal" -> <<"hex", HexRun(cov) /\ val = Unhex(cov)>>
-    [] obf = "encoding.hexidecimal" -> LET inner == Quoted(cov) IN <<"hex", HexRun(inner) /\ val = Unhex(inner)>>
+    \* (the call form is matched case-insensitively as a whole: its argument may mix the letter cases, unlike a bare run)
+    [] obf = "encoding.hexidecimal" -> LET inner == Quoted(cov) IN <<"hex", Len(inner) >= 20 /\ Len(inner) % 2 = 0 /\ AllHex(inner) /\ val = Unhex(inner)>>
     [] StartsWith(T.obfb, XORPFX) /\ AllDigits(SubSeq(T.obfb, 11, Len(T.obfb))) ->
          LET key == DecVal(SubSeq(T.obfb, 11, Len(T.obfb))) IN
          <<"xor", key <= 255 /\ val = XorKey(T.pval, key) /\ T.s = 0 /\ T.e = Len(T.pval)>>
